@@ -886,6 +886,13 @@ static void fault_child(int a, const std::vector<std::string> &tk, int kind, lon
       std::string exp;
       for (auto &kv : m) exp += std::to_string(kv.first) + "=" + std::to_string(kv.second) + " ";
       if (after.substr(0, after.find('|')) != exp) { verdict = "functor-fault-wrong-state"; detail = "expected " + exp + "got " + after; }
+      else {
+        // ... and the bookkeeping agrees with it: size() counts exactly the pairs now stored
+        size_t q = after.find("size=");
+        if (q != std::string::npos && strtoull(after.c_str() + q + 5, nullptr, 10) != m.size()) {
+          verdict = "functor-fault-wrong-state"; detail = "size= after the functor threw: expected " + std::to_string(m.size()) + " got " + after;
+        }
+      }
     }
     for (int i = 0; i < NT && verdict == "ok"; ++i)
       if (g_tab[i] && !was_active[i] && !all_locks_free(i)) { verdict = "lock-held-after-exception"; detail = "T" + std::to_string(i); }
